@@ -48,11 +48,21 @@ def build_case(cid, rng, dynamic, force_async=False, no_send=False, probes=False
     # helper leaf deps the impl fns may require of Impl<App>
     helpers = []
     L = tg.support_for(t.methods)
-    for i in range(rng.randint(0, 2)):
+    same_named = rng.random() < 0.3
+    leaf_impls = []
+    for i in range(rng.randint(0, 2) if not same_named else 2):
         fid = "%s::h%d" % (cid, i)
-        L.append("#[::entrait::entrait(pub H%d)]" % i)
-        L.append('fn h%d<D>(deps: &D, x: i32) -> i32 { ::vrt::enter("%s", ::vrt::tn(deps), ::vrt::addr(deps), &[&x as &dyn ::core::fmt::Debug]); x }' % (i, fid))
-        helpers.append(("H%d" % i, "h%d" % i, fid))
+        body = 'fn h%d<D>(deps: &D, x: i32) -> i32 { ::vrt::enter("%s", ::vrt::tn(deps), ::vrt::addr(deps), &[&x as &dyn ::core::fmt::Debug]); x }' % (i, fid)
+        if same_named:
+            # two different dependency traits whose paths end in the same identifier; hand-implemented leaf traits, so
+            # that `Impl<App>: hmK::H` really depends on the bound being stated (no blanket impl)
+            L.append("pub mod hm%d { #[::entrait::entrait] pub trait H { fn h%d(&self, x: i32) -> i32; } }" % (i, i))
+            leaf_impls.append('impl hm%d::H for APP { fn h%d(&self, x: i32) -> i32 { ::vrt::enter("%s", "", ::vrt::addr(self), &[&x as &dyn ::core::fmt::Debug]); x } }' % (i, i, fid))
+            helpers.append(("hm%d::H" % i, "h%d" % i, fid))
+        else:
+            L.append("#[::entrait::entrait(pub H%d)]" % i)
+            L.append(body)
+            helpers.append(("H%d" % i, "h%d" % i, fid))
     opts = ["TrImpl" if rng.random() < 0.7 else "pub TrImpl", "delegate_by = %s" % ("ref" if dynamic else "DelegateTr")]
     if rng.random() < 0.2:
         opts.append(rng.choice(["mockall = false", "unimock = false", "debug = false"]))
@@ -88,11 +98,13 @@ def build_case(cid, rng, dynamic, force_async=False, no_send=False, probes=False
             if k == 1 and tgt == apps[0][1]:
                 tgt = [x for x in targets if x != apps[0][1]][0]
             L.append("pub struct App%d { pub tag: u32 }" % k)
+            L += [x.replace("APP", "App%d" % k) for x in leaf_impls]
             L.append("impl DelegateTr<Self> for App%d { type Target = %s; }" % (k, tgt))
             apps.append(("App%d" % k, tgt, "App%d { tag: %d }" % (k, k)))
     else:
         sync = " + ::core::marker::Sync" if has_async else ""
         L.append("pub struct AppD { pub t: ::std::boxed::Box<dyn TrImpl<AppD> + ::core::marker::Send + ::core::marker::Sync> }")
+        L += [x.replace("APP", "AppD") for x in leaf_impls]
         L.append("impl ::core::convert::AsRef<dyn TrImpl<AppD>%s> for AppD { fn as_ref(&self) -> &(dyn TrImpl<AppD>%s + 'static) { &*self.t } }" % (sync, sync))
         picks = rng.sample(targets, 2)
         for k, tgt in enumerate(picks):
@@ -131,7 +143,7 @@ def build_case(cid, rng, dynamic, force_async=False, no_send=False, probes=False
     D.append("}")
     nt = ntargets >= 2 and (len(t.methods) >= 2 or any(
         any(a.type_text() == b.type_text() for a, b in zip(m.params, m.params[1:])) for m in t.methods))
-    meta = {"dynamic": dynamic, "calls": calls, "targets": targets, "apps": apps, "nontrivial": nt, "opts": opts,
+    meta = {"dynamic": dynamic, "calls": calls, "targets": targets, "apps": apps, "nontrivial": nt, "opts": opts, "leaf_helpers": same_named,
             "async_trait": t.async_trait, "async_methods": [m.name for m in t.methods if m.is_async], "no_send": no_send,
             "methods": [m.trait_sig() for m in t.methods]}
     return Case(cid, "\n".join(L + D) + "\n", meta=meta)
@@ -228,7 +240,7 @@ def check_case(c, rep):
             rest = evs[1:]
             if [x["fn"] for x in rest] != call["nested"]:
                 return "nested dependency calls %s, expected %s" % ([x["fn"] for x in rest], call["nested"])
-            if any(x["tn"] != tn or str(x["addr"]) != addr for x in rest):
+            if any((x["tn"] != tn and not m.get("leaf_helpers")) or str(x["addr"]) != addr for x in rest):
                 return "nested calls did not receive the same &Impl<App>"
             return None
         bad = ok(d)
